@@ -22,7 +22,9 @@
                                  AND the failure is an occurrence resolved to a binder of another chirality/type
      VIOL class=ill-typed-stage:<stage> <name> <why>        any other failure of a checker
      VIOL class=internal-failure:<stage> <name> <panic message>    any non-capacity panic, any panic within capacity
-     OK k nt <risk> x86:<ok|cap> a64:<ok|cap> rv:<ok|cap|noprint> ctx<log2 max context> size<log2 nodes> *)
+     OK k nt <risk> x86:<ok|ok-beyond|cap> a64:<..> rv:<ok|ok-beyond|cap|noprint> ctx<log2 max context> size<log2 nodes>
+        ok = within capacity and compiled; ok-beyond = compiled although outside the (sufficient)
+        capacity predicate; cap = documented capacity panic outside the predicate *)
 From Coq Require Import List ZArith NArith String Bool.
 From SCC Require Import Base.Sexp Lang.SynUtil Lang.FunSyn Lang.CoreSyn Model.RunBase.
 From SCC Require Import Sem.FsCheck Sem.CoreCheck Model.FocusCheck Model.Fun2Core.
@@ -93,7 +95,7 @@ Definition chk_lin (a : AxSyn.prog) : option string :=
 (* back ends: (tag, outcome) *)
 Definition backend_check (b : string) (within : bool) (r : sexp) : string * outcome :=
   match r with
-  | L [A "OK"; _] => (b ++ ":ok", None)
+  | L [A "OK"; _] => (b ++ (if within then ":ok" else ":ok-beyond"), None)
   | L [A "NOTRUN"] => (b ++ ":notrun", None)
   | L [A "PANIC"; Q m] =>
       if within then (b ++ ":panic", Some (false, "within capacity but: " ++ m))
